@@ -85,7 +85,10 @@ class Predicate(Symbol, ABC):
 
     is_expensive: ClassVar[bool] = False
 
-    def __new__(cls, *args, **kwargs):
+    def __new__(cls, /, *args, **kwargs):
+        if not args and not kwargs:
+            # copy and pickle create the instance without arguments and fill it afterwards
+            return super().__new__(cls)
         all_kwargs = merge_args_and_kwargs(
             cls.__init__, args, kwargs, ignore_first=True
         )
